@@ -22,6 +22,7 @@ type spelling struct {
 	Segs  []string `json:"segs"`
 	Frag  bool     `json:"frag"`
 	Query bool     `json:"query"`
+	Raw   bool     `json:"raw"`
 }
 
 type spellObs struct {
@@ -47,6 +48,8 @@ func spellSeg(s string) string {
 	switch s {
 	case "TMP":
 		return strings.TrimPrefix(cwdPrefix, "/")
+	case "d1":
+		return "d 1" // a directory whose name needs escaping in a URL
 	case "root":
 		return "root.json"
 	case "b1":
@@ -66,15 +69,15 @@ func renderSpelling(sp spelling) string {
 	var out string
 	switch sp.Form {
 	case "url3":
-		out = "file://" + (&url.URL{Path: "/" + p}).EscapedPath()
+		out = "file://" + escOrRaw("/"+p, sp.Raw)
 	case "url1":
-		out = "file:" + (&url.URL{Path: "/" + p}).EscapedPath()
+		out = "file:" + escOrRaw("/"+p, sp.Raw)
 	case "path":
 		out = "/" + p
 	case "rel":
 		out = p
 	case "http", "https":
-		out = sp.Form + "://h1.example/" + p
+		out = sp.Form + "://h1.example" + escOrRaw("/"+p, sp.Raw)
 	}
 	if sp.Upper {
 		i := strings.Index(out, ":")
@@ -98,6 +101,8 @@ func spellAtoms(u string) AURL {
 	}
 	for i, s := range a.Segs {
 		switch s {
+		case "d 1":
+			a.Segs[i] = "d1"
 		case "root.json":
 			a.Segs[i] = "root"
 		case "b1.json":
@@ -146,10 +151,10 @@ func init() {
 						return err
 					}
 				}
-				if err := os.MkdirAll(filepath.Join(dir, "w", "r", "d1", "d2"), 0o755); err != nil {
+				if err := os.MkdirAll(filepath.Join(dir, "w", "r", "d 1", "d2"), 0o755); err != nil {
 					return err
 				}
-				for _, sub := range []string{"", "d1", "d1/d2"} {
+				for _, sub := range []string{"", "d 1", "d 1/d2"} {
 					_ = os.WriteFile(filepath.Join(dir, "w", "r", sub, "root.json"), []byte(spellRoot), 0o644)
 				}
 				spellDirs = append(spellDirs, dir)
@@ -181,6 +186,13 @@ func init() {
 	}
 }
 
+func escOrRaw(p string, raw bool) string {
+	if raw {
+		return p
+	}
+	return (&url.URL{Path: p}).EscapedPath()
+}
+
 func spellChdir() error {
 	d := filepath.Join(cwdPrefix, "w", "r")
 	if err := os.Chdir(d); err != nil {
@@ -190,11 +202,11 @@ func spellChdir() error {
 }
 
 func canonicalRoot() string {
-	below := []string{"", "d1/", "d1/d2/"}[spellFlags.depth]
+	below := []string{"", "d 1/", "d 1/d2/"}[spellFlags.depth]
 	if spellFlags.site == "file" {
 		return (&url.URL{Scheme: "file", Path: cwdPrefix + "/w/r/" + below + "root.json"}).String()
 	}
-	return spellFlags.site + "://h1.example/x/" + below + "root.json"
+	return (&url.URL{Scheme: spellFlags.site, Host: "h1.example", Path: "/x/" + below + "root.json"}).String()
 }
 
 func spellExpand(api, base string, docs map[string]string) (out string, loads []string, err error) {
